@@ -41,7 +41,12 @@ def contracts():
     c["from_response"] = FnSpec(ret="r", sig="""
     ensures r matches Ok(v) ==> v.body@ == response.body@ && v.headers == response.hdrs, //@C02.body_is_response_body
 """)
-    c["get_header"] = FnSpec(ret="r")
+    c["get_header"] = FnSpec(ret="r", sig="""
+    ensures
+        // the text of the named header when it is present and printable, nothing otherwise (the two names acmed reads)
+        name@ == "Replay-Nonce"@ ==> nonce_view(r) == (match self.headers.nonce@ { Some(v) => v.text@, None => None }), //@C04.header_read_is_the_named_header
+        name@ == "Location"@ ==> nonce_view(r) == (match self.headers.location@ { Some(v) => v.text@, None => None }), //@C04.header_read_is_the_named_header,C11.account_url_is_the_location_header
+""")
     c["header_to_string"] = FnSpec(ret="r", sig="""
     ensures (r matches Ok(s) ==> header_value.text@ == Some(s@)), (r is Err ==> header_value.text@ is None),
 """)
@@ -214,7 +219,7 @@ def build():
     u.stub(H, "ValidHttpResponse::json", "http", fns={"json": c["json"]})
     u.stub(H, "is_nonce", "http", fns={"is_nonce": c["is_nonce"]})
     u.verify(H, "ValidHttpResponse::from_response", "http", props=["C08", "C02"], fns={"from_response": c["from_response"]})
-    u.verify(H, "ValidHttpResponse::get_header", "http", props=["C08"])
+    u.verify(H, "ValidHttpResponse::get_header", "http", props=["C08", "C04", "C11"], fns={"get_header": c["get_header"]})
     u.verify(H, "header_to_string", "http", props=["C04"], fns={"header_to_string": c["header_to_string"]})
     u.verify(H, "update_nonce", "http", props=["C04"], fns={"update_nonce": c["update_nonce"]})
     u.verify(H, "check_status", "http", props=["C08"], fns={"check_status": c["check_status"]})
